@@ -14,6 +14,7 @@ def run(rep, fb, tier):
 
 
 EXTRAS = [
+    lambda rep, fb, tier: __import__("vf.rules.pyrules", fromlist=["x"]).rule_py_list_content(rep),
     lambda rep, fb, tier: __import__("vf.rules.pyrules", fromlist=["x"]).rule_py_offset_units(rep),
     lambda rep, fb, tier: st.rule_negaxis(rep, fb, floor=14),
     lambda rep, fb, tier: guards.rule_division(rep, fb),
